@@ -43,10 +43,10 @@ CONFIG = dict(
     theorems=["SigModel.Bus." + t for t in [
         "C20_facts", "C20_subject_kinds_disjoint",
         "C20_no_duplicates", "C20_only_while_registered", "C20_other_subjects", "C20_nothing_after_unregister",
-        "C20_order_partial", "C20_order_prompt", "C20_order_counterexample",
+        "C20_order", "C20_new_subscriber_waits",
         "C20_conservation", "C20_delivery_partial", "C20_delivery_counterexample",
         "C20_publish_never_blocks", "C20_register_never_blocks", "C20_dispatcher_never_blocked", "C20_progress",
-        "C20_admits_partial", "C20_admits_widen", "C20_admits_recorded",
+        "C20_admits", "C20_admits_widen", "C20_admits_recorded",
     ]],
     generated=["Bus"],
     harness=dict(pkg="signaling", test="TestVerifC20"),
